@@ -176,10 +176,11 @@ Section RwSim.
   Variable g : itree -> option (itree * B).
   Variable G : A -> Prop.
   Variable h : A -> B.
+  Variable Q : A -> Prop.              (* what holds of the output *)
   Hypothesis g_text : forall t, g (atext t) = None.
   Hypothesis local : forall inh e, el_ok e = true ->
     match f inh e with
-    | Some (e', a) => G a -> g (abs_el inh e) = Some (abs_el inh e', h a) /\ el_ok e' = true /\
+    | Some (e', a) => G a -> Q a /\ g (abs_el inh e) = Some (abs_el inh e', h a) /\ el_ok e' = true /\
                              is_ktag (ckind_of e') = is_ktag (ckind_of e)
     | None => g (abs_el inh e) = None
     end.
@@ -198,14 +199,14 @@ Section RwSim.
 
   Definition sim_at (e : cel) : Prop := forall inh, el_ok e = true ->
     match c_rw f inh e with
-    | Some (e', a) => G a -> t_rw g (abs_el inh e) = Some (abs_el inh e', h a) /\ el_ok e' = true /\
+    | Some (e', a) => G a -> Q a /\ t_rw g (abs_el inh e) = Some (abs_el inh e', h a) /\ el_ok e' = true /\
                              is_ktag (ckind_of e') = is_ktag (ckind_of e)
     | None => t_rw g (abs_el inh e) = None
     end.
 
   Lemma kids_sim dns kids : Forall (fun kt => sim_at (fst kt)) kids -> forallb kid_ok kids = true ->
     match crw_kids (c_rw f dns) kids with
-    | Some (kids', a) => G a -> rw_list (t_rw g) (flat_map (akid dns) kids) = Some (flat_map (akid dns) kids', h a) /\
+    | Some (kids', a) => G a -> Q a /\ rw_list (t_rw g) (flat_map (akid dns) kids) = Some (flat_map (akid dns) kids', h a) /\
                                 forallb kid_ok kids' = true
     | None => rw_list (t_rw g) (flat_map (akid dns) kids) = None
     end.
@@ -217,11 +218,11 @@ Section RwSim.
     cbn [crw_kids flat_map akid]. rewrite <- app_comm_cons. cbn [rw_list]. fold (rw_list (t_rw g)).
     fold (crw_kids (c_rw f dns)).
     destruct (c_rw f dns c) as [[c' a]|].
-    - intros Ga. destruct (Hc Ga) as (Hc1 & Hc2 & _). rewrite Hc1. split; [reflexivity|].
+    - intros Ga. destruct (Hc Ga) as (Hq & Hc1 & Hc2 & _). rewrite Hc1. split; [exact Hq|]. split; [reflexivity|].
       cbn [forallb kid_ok]. rewrite Hc2, Htok, Hrok. reflexivity.
     - rewrite Hc. rewrite rw_list_texts.
       destruct (crw_kids (c_rw f dns) r) as [[r' a]|].
-      + intros Ga. destruct (IH Ga) as (IH1 & IH2). rewrite IH1. split; [reflexivity|].
+      + intros Ga. destruct (IH Ga) as (Hq & IH1 & IH2). rewrite IH1. split; [exact Hq|]. split; [reflexivity|].
         cbn [forallb kid_ok]. rewrite Hcok, Htok, IH2. reflexivity.
       + rewrite IH. reflexivity.
   Qed.
@@ -231,12 +232,12 @@ Section RwSim.
     induction e as [i k own data kids IH] using cel_ind'. intros inh Hok.
     rewrite c_rw_eq, t_rw_eq. pose proof (local inh _ Hok) as L.
     destruct (f inh (CEl i k own data kids)) as [[e' a]|].
-    - intros Ga. destruct (L Ga) as (L1 & L2 & L3). rewrite L1. auto.
+    - intros Ga. destruct (L Ga) as (Hq & L1 & L2 & L3). rewrite L1. auto.
     - rewrite L. rewrite abs_el_eq. unfold akids. rewrite rw_list_texts.
       rewrite el_ok_eq in Hok. apply andb3 in Hok as (Hd & Hks & Hkids).
       pose proof (kids_sim (in_scope inh own) kids IH Hkids) as K.
       destruct (crw_kids (c_rw f (in_scope inh own)) kids) as [[kids' a]|].
-      + intros Ga. destruct (K Ga) as (K1 & K2). rewrite K1. split; [reflexivity|]. split; [|reflexivity].
+      + intros Ga. destruct (K Ga) as (Hq & K1 & K2). rewrite K1. split; [exact Hq|]. split; [reflexivity|]. split; [|reflexivity].
         rewrite el_ok_eq, Hd, K2. unfold kind_shape in *. destruct (is_ktag k); [reflexivity|].
         apply andb_true_iff in Hks as [Hks _]. apply andb_true_iff in Hks as [_ Hn]. destruct kids; [|discriminate].
         cbn in K. discriminate.
@@ -246,7 +247,7 @@ Section RwSim.
   (* worlds *)
   Lemma docs_sim ds : forallb doc_ok ds = true ->
     match crw_docs f ds with
-    | Some (ds', a) => G a -> rw_docs g (map abs_doc ds) = Some (map abs_doc ds', h a) /\ forallb doc_ok ds' = true
+    | Some (ds', a) => G a -> Q a /\ rw_docs g (map abs_doc ds) = Some (map abs_doc ds', h a) /\ forallb doc_ok ds' = true
     | None => rw_docs g (map abs_doc ds) = None
     end.
   Proof.
@@ -258,17 +259,17 @@ Section RwSim.
     apply andb_true_iff in Hd1 as [Hd1 Htag]. apply andb_true_iff in Hd1 as [Hpro Hroot].
     pose proof (c_rw_sim (d_root d) [] Hroot) as S. unfold abs_top.
     destruct (c_rw f [] (d_root d)) as [[r' a]|].
-    - intros Ga. destruct (S Ga) as (S1 & S2 & S3). rewrite S1. split; [reflexivity|].
+    - intros Ga. destruct (S Ga) as (Hq & S1 & S2 & S3). rewrite S1. split; [exact Hq|]. split; [reflexivity|].
       cbn [forallb]. rewrite Hr. unfold doc_ok. cbn [d_pro d_root d_epi]. rewrite Hpro, S2, S3, Htag, Hepi. reflexivity.
     - rewrite S. destruct (crw_docs f r) as [[r' a]|].
-      + intros Ga. destruct (IH Ga) as (IH1 & IH2). rewrite IH1. split; [reflexivity|].
+      + intros Ga. destruct (IH Ga) as (Hq & IH1 & IH2). rewrite IH1. split; [exact Hq|]. split; [reflexivity|].
         cbn [forallb]. rewrite Hd, IH2. reflexivity.
       + rewrite IH. reflexivity.
   Qed.
 
   Lemma loose_sim ls : forallb loose_ok ls = true ->
     match crw_loose f ls with
-    | Some (ls', a) => G a -> rw_list (t_rw g) (map abs_loose ls) = Some (map abs_loose ls', h a) /\
+    | Some (ls', a) => G a -> Q a /\ rw_list (t_rw g) (map abs_loose ls) = Some (map abs_loose ls', h a) /\
                               forallb loose_ok ls' = true
     | None => rw_list (t_rw g) (map abs_loose ls) = None
     end.
@@ -279,22 +280,22 @@ Section RwSim.
     - cbn [crw_loose abs_loose]. fold (crw_loose f). cbn [loose_ok] in Hl.
       pose proof (c_rw_sim e [] Hl) as S. unfold abs_top.
       destruct (c_rw f [] e) as [[e' a]|].
-      + intros Ga. destruct (S Ga) as (S1 & S2 & _). rewrite S1. split; [reflexivity|].
+      + intros Ga. destruct (S Ga) as (Hq & S1 & S2 & _). rewrite S1. split; [exact Hq|]. split; [reflexivity|].
         cbn [forallb loose_ok]. rewrite S2, Hr. reflexivity.
       + rewrite S. destruct (crw_loose f r) as [[r' a]|].
-        * intros Ga. destruct (IH Ga) as (IH1 & IH2). rewrite IH1. split; [reflexivity|].
+        * intros Ga. destruct (IH Ga) as (Hq & IH1 & IH2). rewrite IH1. split; [exact Hq|]. split; [reflexivity|].
           cbn [forallb loose_ok]. rewrite Hl, IH2. reflexivity.
         * rewrite IH. reflexivity.
     - cbn [crw_loose abs_loose]. fold (crw_loose f). rewrite t_rw_text.
       destruct (crw_loose f r) as [[r' a]|].
-      + intros Ga. destruct (IH Ga) as (IH1 & IH2). rewrite IH1. split; [reflexivity|].
+      + intros Ga. destruct (IH Ga) as (Hq & IH1 & IH2). rewrite IH1. split; [exact Hq|]. split; [reflexivity|].
         cbn [forallb]. rewrite Hl, IH2. reflexivity.
       + rewrite IH. reflexivity.
   Qed.
 
   Lemma cw_rw_sim w : shape_ok w = true ->
     match cw_rw f w with
-    | Some (w', a) => G a -> w_rw g (abs_world w) = Some (abs_world w', h a) /\ shape_ok w' = true
+    | Some (w', a) => G a -> Q a /\ w_rw g (abs_world w) = Some (abs_world w', h a) /\ shape_ok w' = true
     | None => w_rw g (abs_world w) = None
     end.
   Proof.
@@ -302,11 +303,11 @@ Section RwSim.
     unfold cw_rw, w_rw. cbn [abs_world docs loose].
     pose proof (docs_sim (w_docs w) Hd) as D.
     destruct (crw_docs f (w_docs w)) as [[ds' a]|].
-    - intros Ga. destruct (D Ga) as (D1 & D2). rewrite D1. split; [reflexivity|].
+    - intros Ga. destruct (D Ga) as (Hq & D1 & D2). rewrite D1. split; [exact Hq|]. split; [reflexivity|].
       unfold shape_ok. cbn [w_docs w_loose]. rewrite D2, Hl. reflexivity.
     - rewrite D. pose proof (loose_sim (w_loose w) Hl) as L.
       destruct (crw_loose f (w_loose w)) as [[ls' a]|].
-      + intros Ga. destruct (L Ga) as (L1 & L2). rewrite L1. split; [reflexivity|].
+      + intros Ga. destruct (L Ga) as (Hq & L1 & L2). rewrite L1. split; [exact Hq|]. split; [reflexivity|].
         unfold shape_ok. cbn [w_docs w_loose]. rewrite Hd, L2. reflexivity.
       + rewrite L. reflexivity.
   Qed.
@@ -381,7 +382,7 @@ Proof. intros H1 H2. rewrite existsb_app, H1, H2. reflexivity. Qed.
 
 Ltac norm :=
   repeat (rewrite ?map_app, ?flat_akid_app, ?chain_texts_of, ?no_chain_texts; cbn [map flat_map akid app]);
-  repeat rewrite <- app_assoc; cbn [app].
+  rewrite ?app_nil_r; repeat rewrite <- app_assoc; cbn [app].
 Ltac fail_show := match goal with |- ?g => fail 0 g end.
 Ltac bools :=
   repeat match goal with
@@ -420,7 +421,7 @@ Section LocalMoves.
 
   Lemma add_following_local inh e : el_ok e = true ->
     match f_add_following x n inh e with
-    | Some (e', a) => move_guard n a ->
+    | Some (e', a) => move_guard n a -> True /\
         at_parent_of x (ins_after x (abs_loose n)) (abs_el inh e) = Some (abs_el inh e', tt) /\ el_ok e' = true /\
         is_ktag (ckind_of e') = is_ktag (ckind_of e)
     | None => at_parent_of x (ins_after x (abs_loose n)) (abs_el inh e) = None
@@ -435,10 +436,10 @@ Section LocalMoves.
       rewrite Ed in Hdt.
       destruct n as [c|t]; intros [Hclean Hg]; cbn [fst snd] in Hg; rewrite !abs_el_eq; fold dns;
         rewrite <- (aloose_guard _ dns Hg); unfold akids; rewrite Ed.
-      + split; [|split; [|reflexivity]].
+      + split; [exact I|]; split; [|split; [|reflexivity]].
         * norm. rewrite at_parent_hit, ins_after_at by (rewrite ?existsb_texts; assumption). reflexivity.
         * rewrite el_ok_eq. rewrite (kind_shape_tag _ _ _ _ _ _ Hne Hd Hks). cbn [loose_ok] in n_ok. bools.
-      + split; [|split; [|reflexivity]].
+      + split; [exact I|]; split; [|split; [|reflexivity]].
         * norm. rewrite at_parent_hit, ins_after_at by (rewrite ?existsb_texts; assumption). reflexivity.
         * rewrite el_ok_eq. rewrite (kind_shape_tag _ _ _ _ _ _ Hne Hd Hks). cbn [loose_ok] in n_ok. bools.
     - pose proof (split_kids_spec dns x kids) as Sk.
@@ -451,12 +452,12 @@ Section LocalMoves.
         destruct pos as [|b m a].
         * destruct n as [c|t]; intros [Hclean Hg]; cbn [fst snd] in Hg; rewrite !abs_el_eq; fold dns;
             rewrite <- (aloose_guard _ dns Hg); unfold akids; rewrite Ek.
-          -- split; [|split; [|reflexivity]].
+          -- split; [exact I|]; split; [|split; [|reflexivity]].
              ++ norm. rewrite app_assoc. rewrite at_parent_hit, ins_after_at by (rewrite ?has_id_abs; assumption).
                 norm. reflexivity.
              ++ rewrite el_ok_eq. rewrite (kind_shape_tag _ _ _ _ _ _ Hne Hd Hks). cbn [loose_ok] in n_ok.
                 bools.
-          -- split; [|split; [|reflexivity]].
+          -- split; [exact I|]; split; [|split; [|reflexivity]].
              ++ norm. rewrite app_assoc. rewrite at_parent_hit, ins_after_at by (rewrite ?has_id_abs; assumption).
                 norm. reflexivity.
              ++ rewrite el_ok_eq. rewrite (kind_shape_tag _ _ _ _ _ _ Hne Hd Hks). cbn [loose_ok] in n_ok.
@@ -469,7 +470,7 @@ Section LocalMoves.
           apply andb_true_iff in Hc0t0 as [Hc0ok Ht0ok]. pose proof (chain_ok_texts _ Ht0ok) as Ht0t. rewrite Et0 in Ht0t.
           destruct n as [c|t]; intros [Hclean Hg]; cbn [fst snd] in Hg; rewrite !abs_el_eq; fold dns;
             rewrite <- (aloose_guard _ dns Hg); unfold akids; rewrite Ek.
-          -- split; [|split; [|reflexivity]].
+          -- split; [exact I|]; split; [|split; [|reflexivity]].
              ++ norm. rewrite Et0. norm.
                 match goal with |- at_parent_of _ _ (INode _ _ ?l) = _ =>
                   assert (EL : l = ((map atext (chain_texts data) ++ flat_map (akid dns) bk)
@@ -477,7 +478,7 @@ Section LocalMoves.
                     by (norm; reflexivity) end.
                 rewrite EL, at_parent_hit, ins_after_at by assumption. norm. reflexivity.
              ++ rewrite el_ok_eq. rewrite (kind_shape_tag _ _ _ _ _ _ Hne Hd Hks). cbn [loose_ok] in n_ok. bools.
-          -- split; [|split; [|reflexivity]].
+          -- split; [exact I|]; split; [|split; [|reflexivity]].
              ++ norm. rewrite Et0. norm.
                 match goal with |- at_parent_of _ _ (INode _ _ ?l) = _ =>
                   assert (EL : l = ((map atext (chain_texts data) ++ flat_map (akid dns) bk)
@@ -500,7 +501,7 @@ Section LocalMoves.
 
   Lemma add_preceding_local inh e : el_ok e = true ->
     match f_add_preceding x n inh e with
-    | Some (e', a) => move_guard n a ->
+    | Some (e', a) => move_guard n a -> True /\
         g_before x (abs_loose n) (abs_el inh e) = Some (abs_el inh e', tt) /\ el_ok e' = true /\
         is_ktag (ckind_of e') = is_ktag (ckind_of e)
     | None => g_before x (abs_loose n) (abs_el inh e) = None
@@ -515,11 +516,11 @@ Section LocalMoves.
       rewrite Ed in Hdt.
       destruct n as [c|t]; intros [Hclean Hg]; cbn [fst snd] in Hg; rewrite !abs_el_eq; fold dns;
         rewrite <- (aloose_guard _ dns Hg); unfold akids; rewrite Ed.
-      + split; [|split; [|reflexivity]].
+      + split; [exact I|]; split; [|split; [|reflexivity]].
         * norm. rewrite g_before_hit by (rewrite ?existsb_texts; try assumption; cbn [aloose]; rewrite is_itext_abs; reflexivity).
           reflexivity.
         * rewrite el_ok_eq. rewrite (kind_shape_tag _ _ _ _ _ _ Hne Hd Hks). cbn [loose_ok] in n_ok. bools.
-      + split; [|split; [|reflexivity]].
+      + split; [exact I|]; split; [|split; [|reflexivity]].
         * norm. rewrite g_before_hit by (rewrite ?existsb_texts; try assumption; reflexivity). reflexivity.
         * rewrite el_ok_eq. rewrite (kind_shape_tag _ _ _ _ _ _ Hne Hd Hks). cbn [loose_ok] in n_ok. bools.
     - pose proof (split_kids_spec dns x kids) as Sk.
@@ -533,7 +534,7 @@ Section LocalMoves.
         * destruct n as [c|t].
           -- intros [Hclean Hg]; cbn [fst snd] in Hg; rewrite !abs_el_eq; fold dns;
                rewrite <- (aloose_guard _ dns Hg); unfold akids; rewrite Ek.
-             split; [|split; [|reflexivity]].
+             split; [exact I|]; split; [|split; [|reflexivity]].
              ++ norm. rewrite app_assoc.
                 rewrite g_before_hit by (rewrite ?has_id_abs; try assumption; cbn [aloose]; rewrite !is_itext_abs; reflexivity).
                 norm. reflexivity.
@@ -549,7 +550,7 @@ Section LocalMoves.
           apply andb_true_iff in Hc0t0 as [Hc0ok Ht0ok]. pose proof (chain_ok_texts _ Ht0ok) as Ht0t. rewrite Et0 in Ht0t.
           destruct n as [c|t]; intros [Hclean Hg]; cbn [fst snd] in Hg; rewrite !abs_el_eq; fold dns;
             rewrite <- (aloose_guard _ dns Hg); unfold akids; rewrite Ek.
-          -- split; [|split; [|reflexivity]].
+          -- split; [exact I|]; split; [|split; [|reflexivity]].
              ++ norm. rewrite Et0. norm.
                 match goal with |- g_before _ _ (INode _ _ ?l) = _ =>
                   assert (EL : l = ((map atext (chain_texts data) ++ flat_map (akid dns) bk)
@@ -558,7 +559,7 @@ Section LocalMoves.
                 rewrite EL, g_before_hit by (try assumption; cbn [aloose]; rewrite is_itext_abs; reflexivity).
                 norm. reflexivity.
              ++ rewrite el_ok_eq. rewrite (kind_shape_tag _ _ _ _ _ _ Hne Hd Hks). cbn [loose_ok] in n_ok. bools.
-          -- split; [|split; [|reflexivity]].
+          -- split; [exact I|]; split; [|split; [|reflexivity]].
              ++ norm. rewrite Et0. norm.
                 match goal with |- g_before _ _ (INode _ _ ?l) = _ =>
                   assert (EL : l = ((map atext (chain_texts data) ++ flat_map (akid dns) bk)
@@ -570,3 +571,434 @@ Section LocalMoves.
       + rewrite abs_el_eq. apply g_before_miss. unfold akids. apply existsb_app_false; [rewrite existsb_texts; exact Sd|exact Sk].
   Qed.
 End LocalMoves.
+
+Lemma ikind_abs_tag inh e : nkind_eqb (ikind (abs_el inh e)) NTag = is_ktag (ckind_of e).
+Proof. destruct e as [i [] ? ? ?]; reflexivity. Qed.
+
+Lemma bind_data_local p t inh e : nonempty_text t = true -> el_ok e = true ->
+  match f_bind_data p (LText t) inh e with
+  | Some (e', a) => move_guard (LText t) a -> True /\
+      at_tag p (fun q => INode (iid q) (ipayload q) (atext t :: ikids q)) (abs_el inh e) = Some (abs_el inh e', tt) /\
+      el_ok e' = true /\ is_ktag (ckind_of e') = is_ktag (ckind_of e)
+  | None => at_tag p (fun q => INode (iid q) (ipayload q) (atext t :: ikids q)) (abs_el inh e) = None
+  end.
+Proof.
+  intros Ht. destruct e as [i k own data kids]. intros Hok. cbn [f_bind_data]. unfold at_tag.
+  rewrite has_id_abs, ikind_abs_tag. cbn [cid ckind_of].
+  destruct (N.eqb i p && is_ktag k)%bool eqn:E; [|reflexivity].
+  intros [Hclean _]. cbn [snd] in Hclean. split; [exact I|]. rewrite !abs_el_eq. cbn [iid ipayload ikids].
+  apply andb_true_iff in E as [_ Etag]. rewrite el_ok_eq in Hok. apply andb3 in Hok as (Hd & Hks & Hkids).
+  split; [|split; [|reflexivity]].
+  - unfold akids. destruct (chain_texts data); [|discriminate]. reflexivity.
+  - rewrite el_ok_eq. unfold kind_shape. rewrite Etag, Hkids. rewrite chain_ok_of. cbn [forallb]. rewrite Ht. reflexivity.
+Qed.
+
+Lemma append_el_local p c inh e : el_ok c = true -> el_ok e = true ->
+  match f_append_el p (LEl c) inh e with
+  | Some (e', a) => move_guard (LEl c) a -> True /\
+      at_tag p (fun q => INode (iid q) (ipayload q) (ikids q ++ [abs_top c])) (abs_el inh e) = Some (abs_el inh e', tt) /\
+      el_ok e' = true /\ is_ktag (ckind_of e') = is_ktag (ckind_of e)
+  | None => at_tag p (fun q => INode (iid q) (ipayload q) (ikids q ++ [abs_top c])) (abs_el inh e) = None
+  end.
+Proof.
+  intros Hc. destruct e as [i k own data kids]. intros Hok. cbn [f_append_el]. unfold at_tag.
+  rewrite has_id_abs, ikind_abs_tag. cbn [cid ckind_of].
+  destruct (N.eqb i p && is_ktag k)%bool eqn:E; [|reflexivity].
+  intros [_ Hg]. cbn [fst] in Hg. split; [exact I|]. rewrite !abs_el_eq. cbn [iid ipayload ikids].
+  apply andb_true_iff in E as [_ Etag]. rewrite el_ok_eq in Hok. apply andb3 in Hok as (Hd & Hks & Hkids).
+  split; [|split; [|reflexivity]].
+  - unfold akids. rewrite flat_akid_app. cbn [flat_map akid chain_texts no_chain ch_slot map app].
+    change (abs_top c) with (abs_loose (LEl c)). rewrite <- (aloose_guard (LEl c) _ Hg). cbn [aloose].
+    rewrite <- app_assoc. reflexivity.
+  - rewrite el_ok_eq. unfold kind_shape. rewrite Etag, Hd. rewrite kids_ok_app, Hkids. cbn. rewrite Hc. reflexivity.
+Qed.
+
+(* ------------------------------------------------------------------ detach *)
+Lemma null_nil {X} (l : list X) : null l = true -> l = [].
+Proof. destruct l; [reflexivity|discriminate]. Qed.
+Lemma pin_abs e : forall d inh', el_ok e = true -> inh' = [] \/ inh' = d -> abs_el inh' (pin_dns d e) = abs_el d e.
+Proof.
+  induction e as [i k own data kids IH] using cel_ind'. intros d inh' Hok Hinh. cbn [pin_dns].
+  rewrite el_ok_eq in Hok. apply andb3 in Hok as (Hd & Hks & Hkids).
+  destruct (is_ktag k) eqn:Ek.
+  - rewrite !abs_el_eq. set (d' := in_scope d own).
+    assert (E : in_scope inh' (if null d' then own else Some d') = d').
+    { destruct (null d') eqn:En; [|reflexivity]. apply null_nil in En. unfold d' in *. destruct own as [s|]; [reflexivity|].
+      cbn [in_scope] in *. destruct Hinh as [->| ->]; [symmetry; exact En|reflexivity]. }
+    rewrite E. f_equal. unfold akids. f_equal. clear Hks.
+    induction kids as [|[c t] r IHr]; [reflexivity|]. inversion IH as [|? ? Hc Hrest]; subst. cbn [fst] in Hc.
+    cbn [forallb kid_ok] in Hkids. apply andb_true_iff in Hkids as [Hct Hr]. apply andb_true_iff in Hct as [Hcok _].
+    cbn [map flat_map akid]. rewrite (Hc d' d' Hcok) by (right; reflexivity). rewrite (IHr Hrest Hr). reflexivity.
+  - unfold kind_shape in Hks. rewrite Ek in Hks. apply andb_true_iff in Hks as [Hks Hown].
+    apply andb_true_iff in Hks as [_ Hn]. apply null_nil in Hn. subst kids. destruct own; [discriminate|].
+    rewrite !abs_el_eq. cbn [in_scope]. destruct k; [discriminate|reflexivity|reflexivity].
+Qed.
+Lemma pin_ok e : forall d, el_ok e = true -> el_ok (pin_dns d e) = true.
+Proof.
+  induction e as [i k own data kids IH] using cel_ind'. intros d Hok. cbn [pin_dns].
+  destruct (is_ktag k) eqn:Ek; [|exact Hok].
+  rewrite el_ok_eq in *. apply andb3 in Hok as (Hd & Hks & Hkids). rewrite Hd. unfold kind_shape. rewrite Ek. cbn [andb]. clear Hks.
+  induction kids as [|[c t] r IHr]; [reflexivity|]. inversion IH as [|? ? Hc Hrest]; subst. cbn [fst] in Hc.
+  cbn [forallb kid_ok] in Hkids. apply andb_true_iff in Hkids as [Hct Hr]. apply andb_true_iff in Hct as [Hcok Htok].
+  cbn [map forallb kid_ok]. rewrite (Hc _ Hcok), Htok, (IHr Hrest Hr). reflexivity.
+Qed.
+
+Lemma g_extract_hit x i p pre t post : existsb (has_id x) pre = false -> has_id x t = true ->
+  g_extract x (INode i p (pre ++ t :: post)) = Some (INode i p (pre ++ post), t).
+Proof. intros H1 H2. unfold g_extract. rewrite take_id_at by assumption. reflexivity. Qed.
+
+Lemma detach_local x inh e : el_ok e = true ->
+  match f_detach x inh e with
+  | Some (e', out) => True -> loose_ok out = true /\
+      g_extract x (abs_el inh e) = Some (abs_el inh e', abs_loose out) /\ el_ok e' = true /\
+      is_ktag (ckind_of e') = is_ktag (ckind_of e)
+  | None => g_extract x (abs_el inh e) = None
+  end.
+Proof.
+  destruct e as [i k own data kids]. intros Hok. rewrite el_ok_eq in Hok. apply andb3 in Hok as (Hd & Hks & Hkids).
+  cbn [f_detach]. set (dns := in_scope inh own).
+  pose proof (split_texts_spec x (chain_texts data)) as Sd. pose proof (chain_ok_texts _ Hd) as Hdt.
+  destruct (split_texts x (chain_texts data)) as [[[b m] a]|].
+  - destruct Sd as (Ed & Hm & Hb).
+    assert (Hne : chain_texts data <> [] \/ kids <> []) by (left; rewrite Ed; destruct b; discriminate).
+    rewrite Ed in Hdt. intros _. rewrite !abs_el_eq. fold dns. unfold akids. rewrite Ed.
+    split; [|split; [|split; [|reflexivity]]].
+    + cbn [loose_ok]. bools.
+    + norm. rewrite g_extract_hit by (rewrite ?existsb_texts; assumption). norm. reflexivity.
+    + rewrite el_ok_eq. rewrite (kind_shape_tag _ _ _ _ _ _ Hne Hd Hks). bools.
+  - pose proof (split_kids_spec dns x kids) as Sk.
+    destruct (split_kids x kids) as [[[[bk [c0 t0]] ak] pos]|].
+    + destruct Sk as (Ek & Hbk & Hpos).
+      assert (Hne : chain_texts data <> [] \/ kids <> []) by (right; rewrite Ek; destruct bk; discriminate).
+      pose proof Hkids as Hkids0.
+      rewrite Ek in Hkids. rewrite kids_ok_app in Hkids. cbn [forallb kid_ok] in Hkids.
+      apply andb_true_iff in Hkids as [Hbk' Hrest]. apply andb_true_iff in Hrest as [Hc0t0 Hak].
+      apply andb_true_iff in Hc0t0 as [Hc0ok Ht0ok].
+      assert (Hpre : existsb (has_id x) (map atext (chain_texts data) ++ flat_map (akid dns) bk) = false)
+        by (apply existsb_app_false; [rewrite existsb_texts; exact Sd|exact Hbk]).
+      destruct pos as [|b m a].
+      * assert (Eout : abs_loose (LEl (pin_dns dns c0)) = abs_el dns c0)
+          by (cbn [abs_loose]; unfold abs_top; apply pin_abs; [exact Hc0ok|left; reflexivity]).
+        destruct (rev bk) as [|[pc pt] rbk] eqn:Erev.
+        -- assert (bk = []) by (rewrite <- (rev_involutive bk), Erev; reflexivity). subst bk.
+           intros _. rewrite Eout, !abs_el_eq. fold dns. unfold akids. rewrite Ek.
+           split; [|split; [|split; [|reflexivity]]].
+           ++ cbn [loose_ok]. apply pin_ok, Hc0ok.
+           ++ norm. rewrite g_extract_hit by (rewrite ?has_id_abs, ?existsb_texts; assumption). norm. reflexivity.
+           ++ rewrite el_ok_eq. rewrite (kind_shape_tag _ _ _ _ _ _ Hne Hd Hks). bools.
+        -- assert (Ebk : bk = rev rbk ++ [(pc, pt)]) by (rewrite <- (rev_involutive bk), Erev; reflexivity).
+           rewrite Ebk in *. rewrite kids_ok_app in Hbk'. cbn [forallb kid_ok] in Hbk'.
+           intros _. rewrite Eout, !abs_el_eq. fold dns. unfold akids. rewrite Ek.
+           split; [|split; [|split; [|reflexivity]]].
+           ++ cbn [loose_ok]. apply pin_ok, Hc0ok.
+           ++ norm.
+              match goal with |- g_extract _ (INode _ _ ?l) = _ =>
+                assert (EL : l = (map atext (chain_texts data) ++ flat_map (akid dns) (rev rbk ++ [(pc, pt)]))
+                                   ++ abs_el dns c0 :: map atext (chain_texts t0) ++ flat_map (akid dns) ak)
+                  by (norm; reflexivity) end.
+              rewrite EL, g_extract_hit by (rewrite ?has_id_abs; assumption). norm. reflexivity.
+           ++ rewrite el_ok_eq. rewrite (kind_shape_tag _ _ _ _ _ _ Hne Hd Hks). bools.
+      * destruct Hpos as (Hc0 & Et0 & Hm & Hb).
+        assert (Hpre' : existsb (has_id x) ((map atext (chain_texts data) ++ flat_map (akid dns) bk)
+                                            ++ abs_el dns c0 :: map atext b) = false).
+        { apply existsb_app_false; [exact Hpre|]. cbn [existsb]. rewrite has_id_abs, Hc0, existsb_texts. exact Hb. }
+        pose proof (chain_ok_texts _ Ht0ok) as Ht0t. rewrite Et0 in Ht0t.
+        intros _. rewrite !abs_el_eq. fold dns. unfold akids. rewrite Ek.
+        split; [|split; [|split; [|reflexivity]]].
+        -- cbn [loose_ok]. bools.
+        -- norm. rewrite Et0. norm.
+           match goal with |- g_extract _ (INode _ _ ?l) = _ =>
+             assert (EL : l = ((map atext (chain_texts data) ++ flat_map (akid dns) bk)
+                                 ++ abs_el dns c0 :: map atext b) ++ atext m :: map atext a ++ flat_map (akid dns) ak)
+               by (norm; reflexivity) end.
+           rewrite EL, g_extract_hit by assumption. norm. reflexivity.
+        -- rewrite el_ok_eq. rewrite (kind_shape_tag _ _ _ _ _ _ Hne Hd Hks). bools.
+    + rewrite abs_el_eq. unfold g_extract. rewrite take_id_none; [reflexivity|].
+      unfold akids. apply existsb_app_false; [rewrite existsb_texts; exact Sd|exact Sk].
+Qed.
+
+(* ------------------------------------------------------------------ content assignment *)
+Lemma set_chain_texts ch b m a s : chain_ok ch = true -> chain_texts ch = b ++ m :: a -> null s = false ->
+  chain_texts (set_chain ch b m a s) = b ++ {| t_id := t_id m; t_s := s |} :: a /\
+  chain_ok (set_chain ch b m a s) = true.
+Proof.
+  destruct ch as [h sl ap]. unfold chain_ok, chain_texts. cbn [ch_slot ch_head ch_app].
+  destruct sl as [sl|], h as [h|]; try discriminate; try (destruct b; discriminate).
+  intros Hok E Hs. apply andb_true_iff in Hok as [Hsl Happ]. destruct b as [|b0 b'].
+  - cbn [app] in E. injection E as <- <-. cbn [set_chain ch_slot ch_head ch_app t_id]. rewrite Hs.
+    cbn [app]. split; [reflexivity|]. rewrite Happ. destruct s; [discriminate|reflexivity].
+  - cbn [app] in E. injection E as <- ->. cbn [set_chain ch_slot ch_head ch_app]. cbn [app]. split; [reflexivity|].
+    rewrite Hsl. cbn [andb]. rewrite forallb_app in *. apply andb_true_iff in Happ as [H1 H2]. cbn [forallb] in *.
+    apply andb_true_iff in H2 as [_ H2]. rewrite H1, H2. unfold nonempty_text. cbn [t_s]. rewrite Hs. reflexivity.
+Qed.
+
+Lemma set_content_local x s inh e : null s = false -> el_ok e = true ->
+  match f_set_content x s inh e with
+  | Some (e', a) => True -> True /\
+      at_parent_of x (set_text_first x s) (abs_el inh e) = Some (abs_el inh e', tt) /\ el_ok e' = true /\
+      is_ktag (ckind_of e') = is_ktag (ckind_of e)
+  | None => at_parent_of x (set_text_first x s) (abs_el inh e) = None
+  end.
+Proof.
+  intros Hs. destruct e as [i k own data kids]. intros Hok. pose proof Hok as Hok0.
+  rewrite el_ok_eq in Hok. apply andb3 in Hok as (Hd & Hks & Hkids).
+  cbn [f_set_content]. set (dns := in_scope inh own).
+  pose proof (split_texts_spec x (chain_texts data)) as Sd.
+  destruct (split_texts x (chain_texts data)) as [[[b m] a]|].
+  - destruct Sd as (Ed & Hm & Hb). destruct (set_chain_texts data b m a s Hd Ed Hs) as [Et Hc].
+    assert (Hne : chain_texts data <> [] \/ kids <> []) by (left; rewrite Ed; destruct b; discriminate).
+    intros _. split; [exact I|]. rewrite !abs_el_eq. fold dns. unfold akids. rewrite Ed, Et.
+    split; [|split; [|reflexivity]].
+    + norm. rewrite at_parent_hit, set_first_at by (rewrite ?existsb_texts; assumption). reflexivity.
+    + rewrite el_ok_eq. rewrite (kind_shape_tag _ _ _ _ _ _ Hne Hd Hks), Hc, Hkids. reflexivity.
+  - pose proof (split_kids_spec dns x kids) as Sk.
+    destruct (split_kids x kids) as [[[[bk [c0 t0]] ak] pos]|].
+    + destruct Sk as (Ek & Hbk & Hpos).
+      assert (Hpre : existsb (has_id x) (map atext (chain_texts data) ++ flat_map (akid dns) bk) = false)
+        by (apply existsb_app_false; [rewrite existsb_texts; exact Sd|exact Hbk]).
+      destruct pos as [|b m a].
+      * intros _. split; [exact I|]. split; [|split; [exact Hok0|reflexivity]].
+        rewrite abs_el_eq. fold dns. unfold akids. rewrite Ek. norm. rewrite app_assoc.
+        rewrite at_parent_hit, set_first_at by (rewrite ?has_id_abs; assumption). norm.
+        destruct c0 as [i0 [] ? ? ?]; reflexivity.
+      * destruct Hpos as (Hc0 & Et0 & Hm & Hb).
+        assert (Hne : chain_texts data <> [] \/ kids <> []) by (right; rewrite Ek; destruct bk; discriminate).
+        rewrite Ek in Hkids. rewrite kids_ok_app in Hkids. cbn [forallb kid_ok] in Hkids.
+        apply andb_true_iff in Hkids as [Hbk' Hrest]. apply andb_true_iff in Hrest as [Hc0t0 Hak].
+        apply andb_true_iff in Hc0t0 as [Hc0ok Ht0ok].
+        destruct (set_chain_texts t0 b m a s Ht0ok Et0 Hs) as [Et Hc].
+        assert (Hpre' : existsb (has_id x) ((map atext (chain_texts data) ++ flat_map (akid dns) bk)
+                                            ++ abs_el dns c0 :: map atext b) = false).
+        { apply existsb_app_false; [exact Hpre|]. cbn [existsb]. rewrite has_id_abs, Hc0, existsb_texts. exact Hb. }
+        intros _. split; [exact I|]. rewrite !abs_el_eq. fold dns. unfold akids. rewrite Ek.
+        split; [|split; [|reflexivity]].
+        -- norm. rewrite Et0, Et. norm.
+           match goal with |- at_parent_of _ _ (INode _ _ ?l) = _ =>
+             assert (EL : l = ((map atext (chain_texts data) ++ flat_map (akid dns) bk)
+                                 ++ abs_el dns c0 :: map atext b) ++ atext m :: map atext a ++ flat_map (akid dns) ak)
+               by (norm; reflexivity) end.
+           rewrite EL, at_parent_hit, set_first_at by assumption. norm. reflexivity.
+        -- rewrite el_ok_eq. rewrite (kind_shape_tag _ _ _ _ _ _ Hne Hd Hks), Hd. rewrite kids_ok_app.
+           cbn [forallb kid_ok]. rewrite Hbk', Hc0ok, Hc, Hak. reflexivity.
+    + rewrite abs_el_eq. apply at_parent_miss. unfold akids. apply existsb_app_false; [rewrite existsb_texts; exact Sd|exact Sk].
+Qed.
+
+(* ------------------------------------------------------------------ merging text nodes *)
+Definition merged_texts (l : list tobj) : list tobj :=
+  match l with [] => [] | h :: r => [{| t_id := t_id h; t_s := t_s h ++ flat_map t_s r |}] end.
+Lemma merge_chain_texts ch : chain_texts (merge_chain ch) = merged_texts (chain_texts ch).
+Proof. destruct ch as [[h|] [s|] a]; reflexivity. Qed.
+Lemma merge_chain_ok ch : chain_ok ch = true -> chain_ok (merge_chain ch) = true.
+Proof.
+  destruct ch as [[h|] [s|] a]; unfold chain_ok, merge_chain; cbn [ch_slot ch_head ch_app]; try discriminate; auto.
+  intros H. apply andb_true_iff in H as [H _]. destruct s; [discriminate|reflexivity].
+Qed.
+Definition starts_nontext (l : list itree) : Prop := match l with [] => True | t :: _ => is_itext t = false end.
+Lemma merge_run_texts ts : forall h s rest,
+  merge_run (INode h (PText s) []) (map atext ts ++ rest) = merge_run (INode h (PText (s ++ flat_map t_s ts)) []) rest.
+Proof.
+  induction ts as [|t ts IH]; intros h s rest; cbn [map app flat_map].
+  - rewrite app_nil_r. reflexivity.
+  - cbn [merge_run]. change (is_itext (INode h (PText s) [])) with true. rewrite is_itext_atext. cbn [andb].
+    cbn [iid text_of ipayload atext]. rewrite IH, app_assoc. reflexivity.
+Qed.
+Definition mkids (kids : list (cel * chain)) : list (cel * chain) :=
+  map (fun kt => match kt with (c, t) => (c, merge_chain t) end) kids.
+Lemma merge_run_el inh c t r : merge_run (abs_el inh c) (t :: r) = abs_el inh c :: merge_run t r.
+Proof. cbn [merge_run]. rewrite is_itext_abs. reflexivity. Qed.
+Lemma merge_stream dns kids :
+  (forall c T, merge_run (abs_el dns c) (map atext T ++ flat_map (akid dns) kids)
+               = abs_el dns c :: map atext (merged_texts T) ++ flat_map (akid dns) (mkids kids)) /\
+  (forall h s, merge_run (INode h (PText s) []) (flat_map (akid dns) kids)
+               = INode h (PText s) [] :: flat_map (akid dns) (mkids kids)).
+Proof.
+  induction kids as [|[c1 t1] r [IH2 IH3]].
+  - split.
+    + intros c [|t T]; cbn [map app merged_texts flat_map mkids]; [reflexivity|].
+      rewrite merge_run_el. destruct t as [h s]. unfold atext at 1. cbn [t_id t_s]. rewrite merge_run_texts. reflexivity.
+    + reflexivity.
+  - assert (A3 : forall h s, merge_run (INode h (PText s) []) (flat_map (akid dns) ((c1, t1) :: r))
+                             = INode h (PText s) [] :: flat_map (akid dns) (mkids ((c1, t1) :: r))).
+    { intros h s. cbn [flat_map akid mkids map]. rewrite <- app_comm_cons. cbn [merge_run].
+      rewrite is_itext_abs, andb_false_r. rewrite IH2, merge_chain_texts. rewrite <- app_comm_cons. reflexivity. }
+    split; [|exact A3].
+    intros c [|t T]; cbn [map app merged_texts].
+    + cbn [flat_map akid mkids map]. rewrite <- !app_comm_cons. rewrite merge_run_el, IH2, merge_chain_texts. reflexivity.
+    + rewrite merge_run_el. destruct t as [h s]. unfold atext at 1. cbn [t_id t_s]. rewrite merge_run_texts, A3. reflexivity.
+Qed.
+Lemma merge_list_akids dns data kids :
+  merge_list (akids dns data kids) = akids dns (merge_chain data) (mkids kids).
+Proof.
+  unfold akids. rewrite merge_chain_texts. destruct (merge_stream dns kids) as [A2 A3].
+  destruct (chain_texts data) as [|[h s] T]; cbn [map app merged_texts].
+  - destruct kids as [|[c1 t1] r]; [reflexivity|]. cbn [flat_map akid mkids map merge_list]. rewrite <- !app_comm_cons.
+    cbn [merge_list]. destruct (merge_stream dns r) as [B2 _]. rewrite B2, merge_chain_texts. reflexivity.
+  - cbn [merge_list]. unfold atext at 1. cbn [t_id t_s]. rewrite merge_run_texts, A3. reflexivity.
+Qed.
+Lemma merge_abs e : forall inh, abs_el inh (merge_el e) = merge_tree (abs_el inh e).
+Proof.
+  induction e as [i k own data kids IH] using cel_ind'. intros inh. cbn [merge_el]. rewrite !abs_el_eq. cbn [merge_tree].
+  f_equal. set (dns := in_scope inh own).
+  assert (E : map merge_tree (akids dns data kids)
+              = akids dns data (map (fun kt => match kt with (c, t) => (merge_el c, t) end) kids)).
+  { unfold akids. rewrite map_app. f_equal.
+    - rewrite map_map. apply map_ext. reflexivity.
+    - induction kids as [|[c t] r IHr]; [reflexivity|]. inversion IH as [|? ? Hc Hrest]; subst. cbn [fst] in Hc.
+      cbn [flat_map akid map]. rewrite map_app. cbn [map]. rewrite <- Hc, (IHr Hrest). f_equal. f_equal.
+      rewrite map_map. apply map_ext. reflexivity. }
+  rewrite E, merge_list_akids. f_equal. unfold mkids. rewrite map_map. apply map_ext. intros [c t]. reflexivity.
+Qed.
+Lemma merge_ok e : el_ok e = true -> el_ok (merge_el e) = true.
+Proof.
+  induction e as [i k own data kids IH] using cel_ind'. intros Hok. cbn [merge_el].
+  rewrite el_ok_eq in *. apply andb3 in Hok as (Hd & Hks & Hkids). rewrite (merge_chain_ok _ Hd). cbn [andb].
+  apply andb_true_iff. split.
+  - unfold kind_shape in *. destruct (is_ktag k); [reflexivity|]. apply andb_true_iff in Hks as [Hks Hown].
+    apply andb_true_iff in Hks as [He Hn]. apply null_nil in Hn. subst kids. rewrite Hown.
+    destruct data as [[h|] [s|] [|a0 a]]; try discriminate. reflexivity.
+  - clear Hks. induction kids as [|[c t] r IHr]; [reflexivity|]. inversion IH as [|? ? Hc Hrest]; subst. cbn [fst] in Hc.
+    cbn [forallb kid_ok] in Hkids. apply andb_true_iff in Hkids as [Hct Hr]. apply andb_true_iff in Hct as [Hcok Htok].
+    cbn [map forallb kid_ok]. rewrite (Hc Hcok), (merge_chain_ok _ Htok), (IHr Hrest Hr). reflexivity.
+Qed.
+Lemma merge_local p inh e : el_ok e = true ->
+  match f_merge p inh e with
+  | Some (e', a) => True -> True /\ at_tag p merge_tree (abs_el inh e) = Some (abs_el inh e', tt) /\ el_ok e' = true /\
+                            is_ktag (ckind_of e') = is_ktag (ckind_of e)
+  | None => at_tag p merge_tree (abs_el inh e) = None
+  end.
+Proof.
+  intros Hok. unfold f_merge, at_tag. rewrite has_id_abs, ikind_abs_tag.
+  destruct (N.eqb (cid e) p && is_ktag (ckind_of e))%bool; [|reflexivity].
+  intros _. split; [exact I|]. rewrite merge_abs. split; [reflexivity|]. split; [apply merge_ok, Hok|].
+  destruct e; reflexivity.
+Qed.
+
+(* ------------------------------------------------------------------ every primitive update commutes with abs *)
+Lemma at_parent_text x fn t : at_parent_of x fn (atext t) = None. Proof. reflexivity. Qed.
+Lemma g_before_text x nt t : g_before x nt (atext t) = None. Proof. reflexivity. Qed.
+Lemma at_tag_text x fn t : at_tag x fn (atext t) = None.
+Proof. unfold at_tag. rewrite andb_false_r. reflexivity. Qed.
+Lemma g_extract_text x t : g_extract x (atext t) = None. Proof. reflexivity. Qed.
+
+Lemma shape_split w : shape_ok w = true -> forallb doc_ok (w_docs w) = true /\ forallb loose_ok (w_loose w) = true.
+Proof. intros H. apply andb_true_iff in H. exact H. Qed.
+
+Lemma move_sim n okc oka f g w :
+  (forall t, okc t = oka (abs_loose t)) ->
+  (forall t, loose_ok t = true -> okc t = true ->
+     (forall u, g (abs_loose t) (atext u) = None) /\
+     (forall inh e, el_ok e = true ->
+        match f t inh e with
+        | Some (e', a) => move_guard t a -> True /\ g (abs_loose t) (abs_el inh e) = Some (abs_el inh e', tt) /\
+                          el_ok e' = true /\ is_ktag (ckind_of e') = is_ktag (ckind_of e)
+        | None => g (abs_loose t) (abs_el inh e) = None
+        end)) ->
+  shape_ok w = true -> move_ok (c_move_o n okc f w) w n = true ->
+  abs_world (c_move n okc f w) = a_move n oka g (abs_world w) /\ shape_ok (c_move n okc f w) = true.
+Proof.
+  intros Hokk Hloc Hs Hg. unfold c_move, a_move, take_loose. unfold move_ok in Hg. unfold c_move_o in *.
+  destruct (shape_split _ Hs) as [Hd Hl]. cbn [abs_world loose docs].
+  pose proof (ctake_sim n (w_loose w)) as T. unfold loose_insens in Hg.
+  destruct (ctake_loose n (w_loose w)) as [[t l']|].
+  - destruct T as [T1 T2]. rewrite T1. destruct (T2 Hl) as [Ht Hl']. rewrite <- Hokk.
+    destruct (okc t) eqn:Eok; [|split; [reflexivity|exact Hs]].
+    destruct (Hloc t Ht Eok) as [Gt L].
+    assert (Hs1 : shape_ok {| w_docs := w_docs w; w_loose := l' |} = true)
+      by (unfold shape_ok; cbn [w_docs w_loose]; rewrite Hd, Hl'; reflexivity).
+    pose proof (cw_rw_sim (f t) (g (abs_loose t)) (move_guard t) (fun _ => tt) (fun _ => True) Gt L _ Hs1) as S.
+    change (abs_world {| w_docs := w_docs w; w_loose := l' |})
+      with {| docs := map abs_doc (w_docs w); loose := map abs_loose l' |} in S.
+    destruct (cw_rw (f t) {| w_docs := w_docs w; w_loose := l' |}) as [[w2 [dns clean]]|].
+    + apply andb_true_iff in Hg as [Hc Hi].
+      assert (MG : move_guard t (dns, clean)).
+      { split; [exact Hc|]. cbn [fst]. apply orb_true_iff in Hi. destruct Hi as [Hi|Hi]; [left; exact Hi|right].
+        destruct t; [exact Hi|reflexivity]. }
+      destruct (S MG) as (_ & S1 & S2). rewrite S1. split; [reflexivity|exact S2].
+    + rewrite S. split; [reflexivity|exact Hs].
+  - rewrite T. split; [reflexivity|exact Hs].
+Qed.
+
+Lemma is_ltext_abs t : is_ltext t = is_itext (abs_loose t).
+Proof. destruct t as [e|t]; [symmetry; apply is_itext_abs|reflexivity]. Qed.
+
+Lemma cset_loose_sim x s l : map abs_loose (cset_loose x s l) = set_text_first x s (map abs_loose l).
+Proof.
+  induction l as [|t r IH]; [reflexivity|]. cbn [cset_loose map set_text_first]. rewrite has_id_abs_loose.
+  destruct (N.eqb (loose_id t) x).
+  - destruct t as [e|o]; cbn [map abs_loose].
+    + f_equal. destruct e as [i [] ? ? ?]; reflexivity.
+    + reflexivity.
+  - cbn [map]. rewrite IH. reflexivity.
+Qed.
+Lemma cset_loose_ok x s l : null s = false -> forallb loose_ok l = true -> forallb loose_ok (cset_loose x s l) = true.
+Proof.
+  intros Hs. induction l as [|t r IH]; [reflexivity|]. cbn [cset_loose forallb]. intros H.
+  apply andb_true_iff in H as [H1 H2]. destruct (N.eqb (loose_id t) x).
+  - destruct t as [e|o]; cbn [forallb loose_ok]; [rewrite H1, H2; reflexivity|].
+    unfold nonempty_text. cbn [t_s]. rewrite Hs, H2. reflexivity.
+  - cbn [forallb]. rewrite H1, (IH H2). reflexivity.
+Qed.
+Lemma cis_loose_sim w x : is_loose (abs_world w) x = cis_loose w x.
+Proof.
+  unfold is_loose, cis_loose. cbn [abs_world loose]. induction (w_loose w) as [|t r IH]; [reflexivity|].
+  cbn [map existsb]. rewrite has_id_abs_loose, IH. reflexivity.
+Qed.
+
+Theorem apply_sim u w : shape_ok w = true -> upd_ok u w = true ->
+  abs_world (apply_c u w) = apply_a u (abs_world w) /\ shape_ok (apply_c u w) = true.
+Proof.
+  intros Hs Hg. destruct (shape_split _ Hs) as [Hd Hl]. destruct u; cbn [apply_c apply_a upd_ok] in *.
+  - (* UNewText *)
+    unfold cadd_loose, add_loose, abs_world, shape_ok. cbn [w_docs w_loose docs loose]. rewrite map_app, forallb_app, Hd, Hl.
+    cbn. unfold nonempty_text. cbn [t_s]. rewrite Hg. split; reflexivity.
+  - (* UNewTag *)
+    unfold cadd_loose, add_loose, abs_world, shape_ok. cbn [w_docs w_loose docs loose]. rewrite map_app, forallb_app, Hd, Hl.
+    split; reflexivity.
+  - (* UAddFollowing *)
+    apply move_sim; try assumption; [reflexivity|]. intros t Ht _. split; [intros; apply at_parent_text|].
+    intros inh e He. apply add_following_local; assumption.
+  - apply move_sim; try assumption; [reflexivity|]. intros t Ht _. split; [intros; apply g_before_text|].
+    intros inh e He. apply add_preceding_local; assumption.
+  - apply move_sim; try assumption; [reflexivity|]. intros t Ht _. split; [intros; apply g_before_text|].
+    intros inh e He. apply add_preceding_local; assumption.
+  - (* UBindData *)
+    apply move_sim; try assumption; [apply is_ltext_abs|]. intros t Ht Hk. destruct t as [e0|o]; [discriminate|].
+    split; [intros; apply at_tag_text|]. intros inh e He. apply bind_data_local; assumption.
+  - (* UAppendEl *)
+    apply move_sim; try assumption; [intros t; rewrite is_ltext_abs; reflexivity|]. intros t Ht Hk.
+    destruct t as [e0|o]; [|discriminate].
+    split; [intros; apply at_tag_text|]. intros inh e He. apply append_el_local; assumption.
+  - (* UDetach *)
+    pose proof (cw_rw_sim (f_detach x) (g_extract x) (fun _ => True) abs_loose (fun o => loose_ok o = true)
+                  (g_extract_text x) (detach_local x) _ Hs) as S.
+    destruct (cw_rw (f_detach x) w) as [[w1 out]|].
+    + destruct (S I) as (Hq & S1 & S2). rewrite S1. destruct (shape_split _ S2) as [Hd1 Hl1].
+      unfold cadd_loose, add_loose, abs_world, shape_ok. cbn [w_docs w_loose docs loose].
+      rewrite map_app, forallb_app, Hd1, Hl1. cbn [map forallb]. rewrite Hq. split; reflexivity.
+    + rewrite S. split; [reflexivity|exact Hs].
+  - (* USetContent *)
+    apply negb_true_iff in Hg. rewrite cis_loose_sim. destruct (cis_loose w x).
+    + unfold abs_world, shape_ok. cbn [w_docs w_loose docs loose]. rewrite cset_loose_sim, Hd.
+      rewrite (cset_loose_ok _ _ _ Hg Hl). split; reflexivity.
+    + pose proof (cw_rw_sim (f_set_content x s) (at_parent_of x (set_text_first x s)) (fun _ => True) (fun _ => tt)
+                    (fun _ => True) (at_parent_text x _) (fun inh e => set_content_local x s inh e Hg) _ Hs) as S.
+      destruct (cw_rw (f_set_content x s) w) as [[w1 []]|].
+      * destruct (S I) as (_ & S1 & S2). rewrite S1. split; [reflexivity|exact S2].
+      * rewrite S. split; [reflexivity|exact Hs].
+  - (* UMerge *)
+    pose proof (cw_rw_sim (f_merge p) (at_tag p merge_tree) (fun _ => True) (fun _ => tt) (fun _ => True)
+                  (at_tag_text p _) (merge_local p) _ Hs) as S.
+    destruct (cw_rw (f_merge p) w) as [[w1 []]|].
+    + destruct (S I) as (_ & S1 & S2). rewrite S1. split; [reflexivity|exact S2].
+    + rewrite S. split; [reflexivity|exact Hs].
+Qed.
+
+(* ------------------------------------------------------------------ scripts *)
+Theorem run_sim p : forall w, shape_ok w = true -> run_ok p w = true ->
+  run_a p (abs_world w) = (abs_world (fst (run_c p w)), snd (run_c p w)) /\ shape_ok (fst (run_c p w)) = true.
+Proof.
+  induction p as [r|u k IH|k IH]; intros w Hs Hg; cbn [run_a run_c run_ok] in *.
+  - split; [reflexivity|exact Hs].
+  - apply andb_true_iff in Hg as [Hu Hk]. destruct (apply_sim u w Hs Hu) as [E Hs']. rewrite <- E. apply IH; assumption.
+  - apply IH; assumption.
+Qed.
